@@ -458,10 +458,10 @@ def explore(ctx):
         nch = {n: len(distinct_chords("C", (n,))) for n in (5, 6)}
         ctx.bound("total_deviation_roots", droots)
         ctx.bound("total_deviation_chords", nch)
-        ctx.bound("total_deviation_depth", ctx.pick("1 replacement or 1 insertion", "1 replacement / 1 insertion on 21 roots, 2 replacements on 7 natural roots"))
+        ctx.bound("total_deviation_depth", ctx.pick("1 replacement or 1 insertion", "1 replacement / 1 insertion on 21 roots, 2 replacements on roots C, F#, Bb"))
         ctx.product("total", [(r, n, i) for n in (6, 5) for r in droots[n] for i in range(nch[n])], gen_deviations(c1, False))
         if not ctx.quick:
-            ctx.product("total", [(r, n, i) for n in (6, 5) for r in "CDEFGAB" for i in range(nch[n])], gen_deviations(c1, True))
+            ctx.product("total", [(r, n, i) for n in (6, 5) for r in ("C", "F#", "Bb") for i in range(nch[n])], gen_deviations(c1, True))
         # (d) polychord-built inputs (5 .. 12+ notes) and the > 14 note cut-off
         xroots = ctx.pick(["G"], ["G", "Bb", "F#"])
         yroots = ctx.pick(["C"], ["C", "Eb", "A"])
